@@ -119,6 +119,7 @@ impl Simulation {
         &&& no_zero_period(self.scheduler_queue.view())                    // C08
         &&& self.clock.syncs().len() > 0 && self.clock.syncs().last() == self.time.val()   // C18
         &&& self.executor.n_models() == self.model_names@.len()
+        &&& (!self.is_terminated ==> self.executor.usable())                // C11: only a terminated simulation may hold a dead executor
     }
 }
 
@@ -174,6 +175,7 @@ impl Simulation {
         //@[
         requires
             old(self).executor.n_models() == old(self).model_names@.len(),
+            !old(self).is_terminated ==> old(self).executor.usable(),
         ensures
             final(self).time.val() == old(self).time.val(),                                    //@ C01,C11 #run-keeps-time
             final(self).scheduler_queue.view() == old(self).scheduler_queue.view(),
@@ -181,6 +183,7 @@ impl Simulation {
             final(self).clock.last_status() == old(self).clock.last_status(),
             final(self).executor.spawned() == old(self).executor.spawned(),
             final(self).executor.n_models() == old(self).executor.n_models(),
+            !final(self).is_terminated ==> final(self).executor.usable(),                        //@ C11 #executor-usable-unless-terminated
             final(self).model_names@ == old(self).model_names@,
             final(self).observers@ == old(self).observers@,
             final(self).clock_tolerance == old(self).clock_tolerance,
@@ -335,6 +338,7 @@ impl Simulation {
             no_zero_period(final(self).scheduler_queue.view()),                                     //@ C08 #no-zero-period
             final(self).clock.syncs().len() > 0 && final(self).clock.syncs().last() == final(self).time.val(),   //@ C18 #synced-on-current-time
             final(self).executor.n_models() == final(self).model_names@.len(),                      //@ C11 #model-ids-valid
+            !final(self).is_terminated ==> final(self).executor.usable(),                                   //@ C11 #executor-usable-unless-terminated
             final(self).time.val() >= old(self).time.val(),                                     //@ C01 #time-monotone
             final(self).clock_tolerance == old(self).clock_tolerance,
             final(self).model_names@ == old(self).model_names@, final(self).observers@ == old(self).observers@,
@@ -559,6 +563,7 @@ impl Simulation {
                 self.clock_tolerance == old(self).clock_tolerance,
                 self.model_names@ == old(self).model_names@, self.observers@ == old(self).observers@,
                 self.executor.n_models() == old(self).executor.n_models(),
+                self.executor.usable(),
                 self.executor.run_at() == old(self).executor.run_at(),                                //@ C11,C18
                 syncs0 == old(self).clock.syncs(), pend0 == old(self).executor.spawned(), time0 == old(self).time.val(),
                 syncs0.len() > 0, term0 == old(self).is_terminated,
@@ -651,6 +656,7 @@ impl Simulation {
                         self.executor.spawned() == pend0 + tasks,
                         self.executor.run_at() == old(self).executor.run_at(),
                         self.executor.n_models() == old(self).executor.n_models(),
+                        self.executor.usable(),
                         self.time.val() == t, self.clock.syncs() == syncs0, self.is_terminated == term0,
                         self.clock_tolerance == old(self).clock_tolerance,
                         self.model_names@ == old(self).model_names@, self.observers@ == old(self).observers@,
@@ -799,6 +805,7 @@ impl Simulation {
             no_zero_period(final(self).scheduler_queue.view()),                                     //@ C08 #no-zero-period
             final(self).clock.syncs().len() > 0 && final(self).clock.syncs().last() == final(self).time.val(),   //@ C18 #synced-on-current-time
             final(self).executor.n_models() == final(self).model_names@.len(),                      //@ C11 #model-ids-valid
+            !final(self).is_terminated ==> final(self).executor.usable(),                                   //@ C11 #executor-usable-unless-terminated
             final(self).time.val() >= old(self).time.val(),                                     //@ C01 #time-monotone
             // C01: on success the time equals the target and nothing due up to it is left (wf: all pending are later)
             res is Ok ==> final(self).time.val() == target_time.t,                              //@ C01 #reaches-target
@@ -833,6 +840,7 @@ impl Simulation {
                 no_zero_period(self.scheduler_queue.view()),                                        //@ C08
                 self.clock.syncs().len() > 0 && self.clock.syncs().last() == self.time.val(),       //@ C18
                 self.executor.n_models() == self.model_names@.len(),                                //@ C11
+                !self.is_terminated ==> self.executor.usable(),                                     //@ C11
                 target_time.t >= self.time.val(),
                 self.time.val() >= old(self).time.val(),
                 self.is_terminated == old(self).is_terminated,
@@ -922,6 +930,7 @@ impl Simulation {
             no_zero_period(final(self).scheduler_queue.view()),                                     //@ C08 #no-zero-period
             final(self).clock.syncs().len() > 0 && final(self).clock.syncs().last() == final(self).time.val(),   //@ C18 #synced-on-current-time
             final(self).executor.n_models() == final(self).model_names@.len(),                      //@ C11 #model-ids-valid
+            !final(self).is_terminated ==> final(self).executor.usable(),                                   //@ C11 #executor-usable-unless-terminated
             final(self).time.val() >= old(self).time.val(),                                     //@ C01 #time-monotone
             // C01: step() advances to the earliest pending live deadline and runs everything due then,
             // or leaves the time unchanged when nothing is pending
@@ -953,6 +962,7 @@ impl Simulation {
             no_zero_period(final(self).scheduler_queue.view()),                                     //@ C08 #no-zero-period
             final(self).clock.syncs().len() > 0 && final(self).clock.syncs().last() == final(self).time.val(),   //@ C18 #synced-on-current-time
             final(self).executor.n_models() == final(self).model_names@.len(),                      //@ C11 #model-ids-valid
+            !final(self).is_terminated ==> final(self).executor.usable(),                                   //@ C11 #executor-usable-unless-terminated
             final(self).time.val() >= old(self).time.val(),                                     //@ C01 #time-monotone
             res is Ok ==> final(self).time.val() == deadline.into_time_spec(MonotonicTime { t: old(self).time.val() }).t,   //@ C01 #reaches-target
             res is Ok ==> final(self).clock.syncs().last() == final(self).time.val(),            //@ C18 #sync-on-target
@@ -989,10 +999,12 @@ impl Simulation {
             no_zero_period(final(self).scheduler_queue.view()),                                     //@ C08 #no-zero-period
             final(self).clock.syncs().len() > 0 && final(self).clock.syncs().last() == final(self).time.val(),   //@ C18 #synced-on-current-time
             final(self).executor.n_models() == final(self).model_names@.len(),                      //@ C11 #model-ids-valid
+            !final(self).is_terminated ==> final(self).executor.usable(),                                   //@ C11 #executor-usable-unless-terminated
             final(self).time.val() == old(self).time.val(),                                     //@ C01,C11 #process-keeps-time
             final(self).scheduler_queue.view() == old(self).scheduler_queue.view(),
             final(self).clock.syncs() == old(self).clock.syncs(),                               //@ C18 #process-no-sync
-            final(self).executor.spawned() == old(self).executor.spawned().push(seq![action.aid()]),
+            !old(self).is_terminated ==> final(self).executor.spawned() == old(self).executor.spawned().push(seq![action.aid()]),
+            old(self).is_terminated ==> final(self).executor.spawned() == old(self).executor.spawned(),   //@ C11 #terminated-no-effect
             // the action runs at the current time (on which the clock is synchronised: wf)
             !old(self).is_terminated ==> final(self).executor.run_at()                           //@ C01 #process-runs-at-the-current-time
                 == old(self).executor.run_at().push((old(self).time.val(), old(self).time.val() as int)),   //@ C01 #process-runs-at-the-current-time
@@ -1002,6 +1014,12 @@ impl Simulation {
             res is Ok ==> final(self).is_terminated == old(self).is_terminated,                  //@ C11 #ok-keeps-state
         //@]
     {
+        // A terminated simulation must not spawn anything: its executor may
+        // no longer be usable.
+        if self.is_terminated {
+            return Err(ExecutionError::Terminated);
+        }
+
         action.spawn_and_forget(&mut self.executor);
         self.run()
     }
@@ -1066,6 +1084,12 @@ impl Simulation {
             res is Ok ==> final(self).is_terminated == old(self).is_terminated,                  //@ C11 #ok-keeps-state
         //@]
     {
+        // A terminated simulation must not spawn anything: its executor may
+        // no longer be usable.
+        if self.is_terminated {
+            return Err(ExecutionError::Terminated);
+        }
+
         let fut = opaque_send_future();
 
         self.executor.spawn_and_forget(fut);
@@ -1103,6 +1127,12 @@ impl Simulation {
             res is Ok ==> final(self).is_terminated == old(self).is_terminated,                  //@ C11 #ok-keeps-state
         //@]
     {
+        // A terminated simulation must not spawn anything: its executor may
+        // no longer be usable.
+        if self.is_terminated {
+            return Err(ExecutionError::Terminated);
+        }
+
         let (reply_writer, mut reply_reader) = slot_pair();
         let fut = opaque_send_future();
 
@@ -1178,6 +1208,7 @@ impl SimInit {
             // nothing can have been scheduled before the first Scheduler handle exists
             self.scheduler_queue.view().len() == 0,
             self.executor.n_models() == self.model_names@.len(),
+            self.executor.usable(),
         ensures
             // C18: initialisation synchronizes exactly once, on the start time, and only then runs the init code
             res matches Ok((sim, _s)) ==> sim.clock.syncs() == self.clock.syncs().push(start_time.t)     //@ C18 #init-synchronizes-once-on-the-start-time
@@ -1191,6 +1222,7 @@ impl SimInit {
             res matches Ok((sim, _s)) ==> no_zero_period(sim.scheduler_queue.view()),                    //@ C08 #no-zero-period
             res matches Ok((sim, _s)) ==> sim.clock.syncs().len() > 0 && sim.clock.syncs().last() == sim.time.val(),   //@ C18 #synced-on-current-time
             res matches Ok((sim, _s)) ==> sim.executor.n_models() == sim.model_names@.len() && !sim.is_terminated,    //@ C11 #model-ids-valid
+            res matches Ok((sim, _s)) ==> sim.executor.usable(),                                           //@ C11 #executor-usable-unless-terminated
         //@]
     {
         let mut self_ = self;
